@@ -40,6 +40,8 @@ class C10(F.Spec):
             yield self.autocal(rng, i)
         for i in range(n // 3):
             yield self.tilt_retarget(rng, i)
+        for i in range(n // 2):
+            yield self.acprobe(rng, i)
         for i in range(n):
             yield self.ticks(rng, i)
         for i in range(n):
@@ -159,6 +161,22 @@ class C10(F.Spec):
         self.run_until_idle(ops, 640000, 1000)
         return F.Case("uncal%d" % i, ops, {"kind": "uncal", "sub": kind, "sensor": sensor, "noshrink": True,
                                            "tags": ["kind:uncal", "sub:" + kind, "sensor:%d" % sensor]})
+
+    def acprobe(self, rng, i):
+        """single calls of the real supla_esp_gpio_rs_autocalibrate at chosen (step, run times, sensor, stored closing time):
+        every threshold of the step machine +-1 us"""
+        F_, MN, MX = 300000, 500000, 590000000
+        ops = ["boot 12345", "board rs1 0", "relflags 0 0 %d" % (AUTOCAL | RECAL), "relflags 1 0 %d" % (AUTOCAL | RECAL),
+               "motor 3 0 17500 16000", "init", "rstimes 0 0 0 0 0", "rspos 0 0 0", "adv 1500", "rsmanual 0"]
+        for _ in range(25):
+            step = rng.choice([0, 1, 2, 3, 1, 2, 3, 4])
+            tv = rng.choice([0, 1, F_ - 1, F_, F_ + 1, MN - 1, MN, MN + 1, 999, 1000, 17500000, 17500999, MX - 1, MX, MX + 1, 600000001])
+            other = rng.choice([0, 0, 0, F_ - 1, F_, tv])
+            up, down = (other, tv) if step == 2 else (tv, other)
+            if rng.random() < .15:
+                up, down = down, up
+            ops.append("acprobe 0 %d %d %d %d %d" % (step, up, down, rng.choice([0, 1]), rng.choice([0, 700, 17500])))
+        return F.Case("acprobe%d" % i, ops, {"kind": "acprobe", "noshrink": True, "tags": ["kind:acprobe"]})
 
     def autocal(self, rng, i):
         sensor = rng.choice([3, 3, 3, 1, 2, 5, 5])      # 5: works for the first two runs, then reports movement for ever
@@ -354,7 +372,9 @@ class C10(F.Spec):
                         me["cmds"].append(("move", None))
                 if nmsg > 1:
                     me["inter"] = "cmd"
-        if auto:
+        if any(o.startswith("acprobe ") for o in case.ops):
+            me["kind"] = "acprobe"
+        elif auto:
             me["kind"] = "autocal"
         elif me["opening"] == 0 or me["closing"] == 0 or (case.ops and any(o.startswith("rspos 0 0 ") for o in case.ops)):
             me["kind"] = "uncal"
@@ -365,6 +385,19 @@ class C10(F.Spec):
         me = case.meta
         if me.get("kind") == "fbticks":
             return self.derive_fb(case, raw)
+        if me.get("kind") == "acprobe":
+            ops, exp = [], []
+            for op, g in zip(case.ops, raw):
+                if op.startswith("acprobe "):
+                    t = op.split()
+                    ops.append("acprobe " + " ".join(t[2:]))
+                    ac = [x for x in g if x.startswith("AC ")]
+                    # the relay request the call made (set_relay hook), before the probe's own clean-up request
+                    sr = [x.split()[2] for x in g if x.startswith("SETRELAY ")]
+                    k = g.index(ac[0]) if ac else 0
+                    before = [x.split()[2] for x in g[:k] if x.startswith("SETRELAY ")]
+                    exp.append([ac[0] + " " + (before[0] if before else "-")] if ac else [])
+            return "\n".join(ops) + "\n", exp
         if me.get("kind") != "ticks":
             return "", []
         ops = ["cfg %d %d %d %d" % (me["fo"], me["fc"], me["margin"], 1 if me["sensor"] == 1 else 0)]
@@ -449,6 +482,8 @@ class C10(F.Spec):
         self.fill_meta(case)
         me = case.meta
         fs = []
+        if me["kind"] == "acprobe":
+            return fs           # single calls with hand-set fields: compared with the model only
         ivals, hist, reported, cmd_t, levels, end = self.facts(case, raw)
         # (1) nothing stays energised longer than 10 min + a reporting period (+ one accounting period)
         LIMIT = 600 * 1000000 + 200000 + 20000
